@@ -2588,7 +2588,7 @@ Ltac mproj_cbn :=
 (* bwf of an object obtained from a bwf object by storing borrowed texts *)
 Ltac bwf_tac H :=
   let Ho := fresh "Ho" in let Hb := fresh "Hb" in
-  destruct H as [Ho Hb]; split; [exact Ho|];
+  destruct H as [Ho Hb]; split; [first [exact Ho|reflexivity]|];
   apply concat_nil_Forall; apply concat_nil_Forall in Hb; unfold block_parts in *; mproj_cbn;
   repeat match goal with Hf : Forall _ (_ :: _) |- _ => inversion Hf; clear Hf; subst end;
   repeat constructor; try assumption; try apply borrow_blk; try reflexivity.
@@ -2878,4 +2878,70 @@ Proof.
            ++ intros _ Hb. apply H6. apply H5, H4, H3, H2, H1, Hb.
            ++ eapply st_le_trans; [exact L1|]. eapply st_le_trans; [exact L2|]. eapply st_le_trans; [exact L3|].
               eapply st_le_trans; [exact L4|]. eapply st_le_trans; [exact L5|exact L6].
+Qed.
+
+Lemma free_text_le o t s : st_le s (free_text o t s).
+Proof.
+  unfold free_text. destruct o; [|apply st_le_refl]. destruct (t_val t) as [[|c x]|]; try apply st_le_refl.
+  destruct (t_blk t); [apply free_blk_le|]. split; cbn; [reflexivity|lia].
+Qed.
+Lemma free_seg_le o sg s : st_le s (free_seg o sg s).
+Proof.
+  unfold free_seg. eapply st_le_trans; [|apply free_blk_le]. destruct o; [|apply st_le_refl].
+  destruct (sg_text sg); [apply st_le_refl|]. destruct (sg_blk sg); [apply free_blk_le|]. split; cbn; [reflexivity|lia].
+Qed.
+Lemma free_members_le m s : st_le s (snd (free_members m s)).
+Proof.
+  unfold free_members. cbn [snd].
+  repeat first [ apply st_le_refl
+               | (eapply st_le_trans; [|apply free_text_le])
+               | (eapply st_le_trans; [|apply fold_free_le; intros; apply free_seg_le])
+               | (eapply st_le_trans; [|match goal with |- st_le _ (match ?x with _ => _ end) => destruct x as [[? ?]|]; [apply free_blk_le|apply st_le_refl] end])
+               | (eapply st_le_trans; [|match goal with |- st_le _ (match ?x with _ => _ end) => destruct x; [apply st_le_refl|apply free_text_le] end]) ].
+Qed.
+
+Lemma free_members_empty d s : m_owner d = false -> erase d = empty_uri ->
+  erase (fst (free_members d s)) = empty_uri.
+Proof.
+  intros Ho He. unfold free_members. rewrite Ho. cbn [fst]. unfold erase in *.
+  cbn [m_scheme m_userInfo m_hostText m_ip4 m_ip6 m_ipFuture m_portText m_segs m_query m_fragment m_abs m_owner map].
+  unfold empty_uri in *. injection He as H1 H2 H3 H4 H5 H6 H7 H8 H9 H10 H11 H12.
+  rewrite H1, H2, H3, H6, H7, H9, H10, H11. reflexivity.
+Qed.
+
+Lemma add_base_impl_error compat rel base :
+  fst (add_base_impl compat rel base) <> 0%N -> snd (add_base_impl compat rel base) = empty_uri.
+Proof. unfold add_base_impl. destruct (scheme base); cbn [fst snd]; [intros H; contradiction H; reflexivity|reflexivity]. Qed.
+
+Lemma bwf_mwf d : bwf d -> mwf_host d -> mwf d.
+Proof.
+  intros [Ho Hb] Hh. split; [exact Hh|]. rewrite Hb. split; [constructor|]. split; [intros H; congruence|reflexivity].
+Qed.
+
+Lemma bwf_free_members d s : bwf d -> bwf (fst (free_members d s)) /\ (mwf_host d -> mwf_host (fst (free_members d s))).
+Proof.
+  intros H. pose proof H as [Ho _]. unfold free_members. rewrite Ho. cbn [fst]. split; [|intros Hh; exact Hh].
+  bwf_tac H.
+Qed.
+
+Lemma add_base_m_erasure compat rel base s : nofault s ->
+  exists rc d s', add_base_m compat rel base s = (rc, d, s')
+    /\ (rc, erase d) = add_base compat (erase rel) (erase base)
+    /\ bwf d /\ (mwf_host rel -> mwf_host base -> mwf d) /\ nofault s'.
+Proof.
+  intros Hnf. unfold add_base_m, add_base.
+  pose proof (add_base_impl_m_nf compat rel base s Hnf) as H. unfold add_base_post in H.
+  destruct (add_base_impl_m compat rel base s) as [[rc d] s1]. destruct H as (Hrc & He & Hb & Hh & L).
+  destruct (add_base_impl compat (erase rel) (erase base)) as [prc pu] eqn:Ep. cbn [fst snd] in Hrc, He. subst prc. subst pu.
+  destruct (rc =? 0)%N eqn:E0.
+  - exists rc, d, s1. split; [reflexivity|]. split; [reflexivity|]. split; [exact Hb|].
+    split; [intros A B; apply bwf_mwf; auto|apply (st_le_nofault _ _ L Hnf)].
+  - apply N.eqb_neq in E0.
+    pose proof (add_base_impl_error compat (erase rel) (erase base)) as Herr. rewrite Ep in Herr. cbn [fst snd] in Herr.
+    specialize (Herr E0).
+    pose proof (free_members_le d s1) as L2. destruct (bwf_free_members d s1 Hb) as [Hb' Hh'].
+    pose proof (free_members_empty d s1 (proj1 Hb) Herr) as He'.
+    destruct (free_members d s1) as [d' s']. cbn [fst snd] in *.
+    exists rc, d', s'. split; [reflexivity|]. split; [rewrite He', Herr; reflexivity|]. split; [exact Hb'|].
+    split; [intros A B; apply bwf_mwf; auto|]. apply (st_le_nofault _ _ L2). apply (st_le_nofault _ _ L Hnf).
 Qed.
